@@ -553,14 +553,20 @@ impl Check for C17 {
                             Err(err) => out.fail("region_stats_error", &tags, format!("{} [{},{}): {}", ch.name, s, e, err)),
                             Ok(g) => cmp_entry(&format!("stats_for_bed_item {} [{},{})", ch.name, s, e), &g, &ref_stats(ch, s, e), &tags, out),
                         }
-                        bed_text.push_str(&format!("{}\t{}\t{}\tr{}_{}\tx\n", ch.name, s, e, s, e));
-                        expected.push((ch.name.clone(), format!("r{}_{}", s, e), s, e));
+                        // names: plain, with blanks inside, empty (columns are separated by TAB only)
+                        let nm = match (s + e) % 5 {
+                            0 => format!("r {}  {}", s, e),
+                            1 => String::new(),
+                            _ => format!("r{}_{}", s, e),
+                        };
+                        bed_text.push_str(&format!("{}\t{}\t{}\t{}\tx\n", ch.name, s, e, nm));
+                        expected.push((ch.name.clone(), nm, s, e));
                     }
                 }
             }
             // (2) the iterator used by the tool's single-threaded path and the Python binding:
             // one row per input row, same order, requested name
-            for (mode, name) in [("column4", Name::Column(3)), ("interval", Name::Interval), ("none", Name::None), ("column1", Name::Column(0))] {
+            for (mode, name) in [("column4", Name::Column(3)), ("interval", Name::Interval), ("none", Name::None), ("column1", Name::Column(0)), ("column5", Name::Column(4))] {
                 let rd2 = BigWigRead::open(Cursor::new(bytes.clone())).unwrap();
                 let rows: Vec<_> = bigwig_average_over_bed(Cursor::new(bed_text.clone().into_bytes()), rd2, name).collect();
                 out.count("iterator_rows", rows.len() as u64);
@@ -579,6 +585,7 @@ impl Check for C17 {
                                 "column4" => nm.clone(),
                                 "interval" => format!("{}:{}-{}", chn, s, e),
                                 "none" => format!("{}\t{}\t{}\t{}\tx", chn, s, e, nm),
+                                "column5" => "x".to_string(),
                                 _ => chn.clone(),
                             };
                             if *got_name != want_name {
@@ -605,7 +612,7 @@ impl Check for C17 {
         let q = tier == Tier::Quick;
         json!({
             "files": wig_layouts(if q {3} else {4}, L).len() + 24, "regions_per_chromosome": 136,
-            "name_modes": ["column 4", "interval", "none", "column 1"],
+            "name_modes": ["column 4", "interval", "none", "column 1", "column 5"], "names": ["plain", "with blanks inside", "empty"],
             "paths": ["stats_for_bed_item", "bigwig_average_over_bed iterator"],
             "tools": crate::clifam::tool_space(),
         })
